@@ -1,0 +1,13 @@
+//go:build verif
+
+package php7
+
+// Verification hooks (build tag `verif`): goyacc's own debug trace and token names, so that an
+// external harness can compare the generated driver's moves with a model of it. Nothing here is
+// compiled without the tag.
+
+// VerifSetDebug sets goyacc's debug level; the generated driver prints its trace to os.Stdout.
+func VerifSetDebug(n int) { yyDebug = n }
+
+// VerifToknames returns goyacc's token name table (internal token number n is entry n-1).
+func VerifToknames() []string { return yyToknames[:] }
